@@ -94,6 +94,11 @@ class BoundArgs:
         self.arguments = arguments
 
 
+class DefaultDict(dict):
+    """collections.defaultdict: a missing key is created from the factory on lookup"""
+    factory = None
+
+
 class DequeVal(list):
     """collections.deque: a list with operations at the left end"""
 
@@ -662,6 +667,9 @@ def subscript(I, base, key):
         k = dict_key(I, base, key)
         if k in base:
             return base[k]
+        if isinstance(base, DefaultDict) and base.factory is not None:
+            base[k] = I.call(base.factory, [], {})
+            return base[k]
         raise SymRaise("KeyError", repr(key))
     if isinstance(base, SymObj) and base.cls is not None:
         m = base.cls.lookup("__getitem__")
@@ -933,6 +941,26 @@ def value_attr(I, obj, name):
             return obj
         if name == "copy":
             return Builtin(name, lambda: Vec(list(obj.items), obj.col))
+        if name == "size":
+            return sp.Integer(len(_vflat(obj)))
+        if name == "ndim":
+            return sp.Integer(len(_vshape(obj)))
+        if name == "tolist":
+            def tolist(v=obj):
+                return [tolist(x) if isinstance(x, Vec) else x for x in v.items]
+            return Builtin(name, tolist)
+        if name == "astype":
+            return Builtin(name, lambda dt, **k: _as_dtype(I, obj, dt, True))
+        if name in ("min", "max", "mean", "prod", "cumsum", "any", "all", "clip", "round", "argsort", "argmax", "argmin", "conj", "conjugate", "dot", "sort"):
+            if name == "sort":
+                def insort(**k):
+                    r = np_("sort")(obj)
+                    obj.items[:] = r.items
+                return Builtin(name, insort)
+            fn_ = np_(name)
+            if fn_ is None:
+                raise AnalysisError(f"ndarray.{name} is not modelled")
+            return Builtin(name, lambda *a, **k: fn_(obj, *a, **k))
         if name in ("real", "imag"):
             part = sp.re if name == "real" else sp.im
 
@@ -996,6 +1024,15 @@ def value_attr(I, obj, name):
 
 
 # ------------------------------------------------------------------- builtins
+def _pyformat(v, spec):
+    if isinstance(v, str):
+        return format(v, spec)
+    e = to_expr(v)
+    if not e.is_number:
+        raise AnalysisError("format() of a symbolic number")
+    return format(int(e) if e.is_Integer else float(e) if e.is_real else complex(e), spec)
+
+
 def _num(f):
     def g(*a):
         return f(*[to_expr(x) for x in a])
@@ -1336,6 +1373,10 @@ def make_builtins(I):
     reg("hash", lambda x: sp.Integer(x.id if isinstance(x, SymObj) else hash(x)))
     reg("staticmethod", lambda f: ("static", f))
     reg("copy.copy", b_copy)
+    reg("format", lambda v, spec="": _pyformat(v, spec))
+    reg("bin", lambda v: bin(concrete_int(v)))
+    reg("hex", lambda v: hex(concrete_int(v)))
+    reg("oct", lambda v: oct(concrete_int(v)))
 
     def b_open(path, *a, **k):
         raise AnalysisError(f"open({path!r}): the rule did not provide this file")
@@ -1442,6 +1483,40 @@ def external(I, dotted):
                     out.append((k, [x]))
             return [(k, GenVal(g)) for k, g in out]
         return Builtin(dotted, groupby)
+    if dotted == "itertools.zip_longest":
+        def zip_longest(*its, fillvalue=None):
+            seqs = [iterate(I, x) for x in its]
+            n = max([len(x) for x in seqs] or [0])
+            return GenVal([tuple(x[i] if i < len(x) else fillvalue for x in seqs) for i in range(n)])
+        return Builtin(dotted, zip_longest)
+    if dotted == "itertools.repeat":
+        def repeat(x, times=None):
+            if times is None:
+                raise AnalysisError("itertools.repeat without a count")
+            return GenVal([x] * concrete_int(times))
+        return Builtin(dotted, repeat)
+    if dotted in ("itertools.takewhile", "itertools.dropwhile"):
+        def while_(pred, it):
+            items, out, taking = iterate(I, it), [], True
+            for i, x in enumerate(items):
+                t = truth(I, I.call(pred, [x], {}))
+                if t is not sp.true and t is not sp.false:
+                    raise AnalysisError(f"{dotted} with a symbolic predicate")
+                if t is sp.false:
+                    return GenVal(out if dotted.endswith("takewhile") else items[i:])
+                out.append(x)
+            return GenVal(out if dotted.endswith("takewhile") else [])
+        return Builtin(dotted, while_)
+    if dotted == "itertools.starmap":
+        return Builtin(dotted, lambda f, it: GenVal([I.call(f, list(iterate(I, a)), {}) for a in iterate(I, it)]))
+    if dotted == "itertools.count":
+        raise AnalysisError("itertools.count (an unbounded iterator) is not modelled")
+    if dotted == "itertools.combinations":
+        import itertools as _it2
+        return Builtin(dotted, lambda it, r: GenVal([tuple(c) for c in _it2.combinations(iterate(I, it), concrete_int(r))]))
+    if dotted == "itertools.permutations":
+        import itertools as _it2
+        return Builtin(dotted, lambda it, r=None: GenVal([tuple(c) for c in _it2.permutations(iterate(I, it), None if r is None else concrete_int(r))]))
     if dotted == "itertools.chain":
         return Builtin(dotted, lambda *its: [x for it in its for x in iterate(I, it)])
     if dotted == "itertools.product":
@@ -1523,8 +1598,20 @@ def external(I, dotted):
         return ModuleVal(dotted, external=dotted)
     if dotted == "collections.deque":
         return Builtin(dotted, lambda it=(), maxlen=None: DequeVal(iterate(I, it)))
+    if dotted == "collections.Counter":
+        def counter(it=()):
+            out = {}
+            for x in (it.items() if isinstance(it, dict) else [(y, 1) for y in iterate(I, it)]):
+                k_ = dict_key(I, out, x[0])
+                out[k_] = binop(I, ast.Add(), out.get(k_, sp.Integer(0)), to_expr(x[1]))
+            return out
+        return Builtin(dotted, counter)
     if dotted in ("collections.defaultdict",):
-        raise AnalysisError("collections.defaultdict is not modelled")
+        def defaultdict(factory=None, *a, **k):
+            d = DefaultDict(*[x if isinstance(x, dict) else dict(iterate(I, x)) for x in a], **k)
+            d.factory = factory
+            return d
+        return Builtin(dotted, defaultdict)
     if dotted in ("collections.OrderedDict",):
         return I.builtins["dict"]
     if dotted in ("functools.lru_cache", "functools.cache", "functools.wraps", "functools.partial", "functools.reduce"):
@@ -1758,6 +1845,13 @@ def _math(I, name):
         return loadtxt
     if name in ("isclose", "allclose"):
         def isclose(a, b, rtol=1e-05, atol=1e-08, **k):
+            a, b = _tovec(a), _tovec(b)
+            if isinstance(a, Vec) or isinstance(b, Vec):
+                n = max(len(x) for x in (a, b) if isinstance(x, Vec))
+                rs = [isclose(a.items[i] if isinstance(a, Vec) else a, b.items[i] if isinstance(b, Vec) else b, rtol, atol) for i in range(n)]
+                if name == "isclose":
+                    return Vec(rs)
+                return False if any(r is False for r in rs) else True if all(r is True for r in rs) else sp.And(*[r for r in rs if r is not True])
             r = sp.Le(sp.Abs(to_expr(a) - to_expr(b)), to_expr(atol) + to_expr(rtol) * sp.Abs(to_expr(b)))
             return _pb(r)
         return isclose
@@ -1786,4 +1880,231 @@ def _math(I, name):
                 return sp.Symbol(getattr(v, "name", nm))
             return interp_f(to_expr(x), sy(xp, "xp"), sy(fp, "fp"), sy(left, "l"), sy(right, "r"))
         return interp
+    return _numpy_more(I, name)
+
+
+def _numpy_more(I, name):
+    """further numpy functions on the vector model (element-wise maps, constructors, reductions, ordering on decidable values)"""
+    asv = lambda x: Vec(_tovec(x).items) if isinstance(_tovec(x), Vec) else None
+    flat = lambda x: _vflat(_tovec(x)) if isinstance(_tovec(x), Vec) else [x]
+
+    def ew(f, *xs):
+        """apply f element-wise over (nested) vectors / scalars of equal shape (scalars broadcast)"""
+        xs = [_tovec(x) for x in xs]
+        if any(isinstance(x, Vec) for x in xs):
+            n = max(len(x) for x in xs if isinstance(x, Vec))
+            return Vec(ew(f, *[(x.items[i] if len(x) > 1 else x.items[0]) if isinstance(x, Vec) else x for x in xs]) for i in range(n))
+        return f(*xs)
+
+    def cond_of(c):
+        t = truth(I, c)
+        return True if t is sp.true else False if t is sp.false else t
+
+    def decide(op, a, b):
+        r = compare(I, op, a, b)
+        if r is True or r is False:
+            return r
+        raise AnalysisError("ordering of array values is not known")
+
+    def order(v):
+        items = flat(v)
+        idx = []
+        for i in range(len(items)):
+            pos = len(idx)
+            while pos > 0 and decide(ast.Lt(), items[i], items[idx[pos - 1]]):
+                pos -= 1
+            idx.insert(pos, i)
+        return items, idx
+
+    def shape_of(sh):
+        sh = iterate(I, sh) if isinstance(sh, (tuple, list, Vec)) else [sh]
+        return [concrete_int(x) for x in sh]
+
+    def filled(sh, val):
+        def rec(dims):
+            return Vec(rec(dims[1:]) for _ in range(dims[0])) if dims else val
+        return rec(shape_of(sh))
+
+    if name == "where":
+        def where(c, a=None, b=None):
+            if a is None:
+                raise AnalysisError("numpy.where with one argument")
+
+            def one(ci, ai, bi):
+                t = cond_of(ci)
+                return ai if t is True else bi if t is False else merge(t, ai, bi)
+            return ew(one, c, a, b)
+        return where
+    if name == "clip":
+        return lambda v, lo=None, hi=None, **k: ew(lambda x: _minmax(sp.Max, [to_expr(lo), _minmax(sp.Min, [to_expr(x), to_expr(hi)])]) if lo is not None and hi is not None
+                                                  else _minmax(sp.Max, [to_expr(lo), to_expr(x)]) if lo is not None else _minmax(sp.Min, [to_expr(x), to_expr(hi)]), v)
+    if name in ("any", "all"):
+        def anyall(v, axis=None, **k):
+            cs = [cond_of(x) for x in flat(v)]
+            if name == "any":
+                return True if any(c is True for c in cs) else False if all(c is False for c in cs) else sp.Or(*[c for c in cs if c is not False])
+            return False if any(c is False for c in cs) else True if all(c is True for c in cs) else sp.And(*[c for c in cs if c is not True])
+        return anyall
+    if name == "isfinite":
+        return lambda v: ew(lambda x: not (to_expr(x).has(sp.nan) or to_expr(x).has(sp.oo) or to_expr(x).has(sp.zoo)), v)
+    if name == "isinf":
+        return lambda v: ew(lambda x: bool(to_expr(x).has(sp.oo)) and not to_expr(x).has(sp.nan), v)
+    if name in ("concatenate", "hstack", "append"):
+        def concat(*a, **k):
+            parts = iterate(I, a[0]) if name != "append" else list(a[:2])
+            out = []
+            for p_ in parts:
+                out.extend(flat(p_) if not (isinstance(_tovec(p_), Vec) and _vshape(_tovec(p_))[1:]) else _tovec(p_).items)
+            return Vec(out)
+        return concat
+    if name in ("vstack", "stack", "row_stack"):
+        return lambda parts, **k: Vec(Vec(flat(p_)) for p_ in iterate(I, parts))
+    if name == "column_stack":
+        return lambda parts, **k: Vec(Vec(r) for r in zip(*[flat(p_) for p_ in iterate(I, parts)]))
+    if name == "transpose":
+        def transpose(v, *a):
+            v = _tovec(v)
+            if isinstance(v, Vec) and v.items and isinstance(v.items[0], Vec):
+                return Vec(Vec(r.items[j] for r in v.items) for j in range(len(v.items[0])))
+            return v
+        return transpose
+    if name == "arange":
+        def arange(*a, **k):
+            a = [to_expr(x) for x in a]
+            if not all(x.is_number for x in a):
+                raise AnalysisError("numpy.arange with symbolic bounds")
+            lo, hi, st = (0, a[0], 1) if len(a) == 1 else (a[0], a[1], a[2] if len(a) > 2 else 1)
+            out, x = [], lo
+            while (x < hi) if st > 0 else (x > hi):
+                out.append(to_expr(x)); x = x + st
+                if len(out) > 10000:
+                    raise AnalysisError("numpy.arange too long")
+            return Vec(out)
+        return arange
+    if name == "linspace":
+        def linspace(a, b, num=50, endpoint=True, **k):
+            n = concrete_int(num)
+            a, b = to_expr(a), to_expr(b)
+            den = (n - 1) if endpoint else n
+            return Vec(a + (b - a) * sp.Rational(i, den) if den else a for i in range(n))
+        return linspace
+    if name in ("zeros", "ones", "empty", "full"):
+        if name == "full":
+            return lambda sh, val, **k: filled(sh, val)
+        return lambda sh, *a, **k: filled(sh, sp.Integer(1 if name == "ones" else 0))
+    if name in ("full_like", "empty_like"):
+        return lambda v, val=sp.Integer(0), **k: ew(lambda x: val, v)
+    if name == "cumsum":
+        def cumsum(v, **k):
+            out, acc = [], sp.Integer(0)
+            for x in flat(v):
+                acc = binop(I, ast.Add(), acc, x); out.append(acc)
+            return Vec(out)
+        return cumsum
+    if name in ("mean", "average"):
+        def mean(v, **k):
+            xs = flat(v)
+            if k.get("weights") is not None:
+                ws = flat(k["weights"])
+                return sum(to_expr(x) * to_expr(w_) for x, w_ in zip(xs, ws)) / sum(to_expr(w_) for w_ in ws)
+            return sum(to_expr(x) for x in xs) / len(xs)
+        return mean
+    if name in ("max", "amax", "min", "amin", "nanmax", "nanmin"):
+        f_ = sp.Max if "max" in name else sp.Min
+        return lambda v, *a, **k: _minmax(f_, [to_expr(x) for x in flat(v)])
+    if name in ("sort", "argsort", "argmax", "argmin", "unique", "median"):
+        def ordered(v, *a, **k):
+            items, idx = order(v)
+            if name == "sort":
+                return Vec(items[i] for i in idx)
+            if name == "argsort":
+                return Vec(sp.Integer(i) for i in idx)
+            if name == "argmax":
+                best = idx[-1]
+                # first occurrence among equal maxima
+                for i in idx:
+                    if compare(I, ast.Eq(), items[i], items[best]) is True:
+                        best = min(best, i) if compare(I, ast.Eq(), items[i], items[best]) is True else best
+                return sp.Integer(min(i for i in idx if compare(I, ast.Eq(), items[i], items[idx[-1]]) is True))
+            if name == "argmin":
+                return sp.Integer(min(i for i in idx if compare(I, ast.Eq(), items[i], items[idx[0]]) is True))
+            if name == "unique":
+                out = []
+                for i in idx:
+                    if not out or compare(I, ast.Eq(), out[-1], items[i]) is not True:
+                        out.append(items[i])
+                return Vec(out)
+            n = len(idx)
+            return to_expr(items[idx[n // 2]]) if n % 2 else (to_expr(items[idx[n // 2 - 1]]) + to_expr(items[idx[n // 2]])) / 2
+        return ordered
+    if name == "searchsorted":
+        def searchsorted(a, x, side="left", **k):
+            items = flat(a)
+
+            def one(xx):
+                lo = 0
+                for i, y in enumerate(items):
+                    if decide(ast.Lt() if side == "left" else ast.LtE(), y, xx):
+                        lo = i + 1
+                    else:
+                        break
+                return sp.Integer(lo)
+            return ew(one, x)
+        return searchsorted
+    if name in ("power", "float_power"):
+        return lambda a, b: ew(lambda x, y: to_expr(x) ** to_expr(y), a, b)
+    if name == "square":
+        return lambda a: ew(lambda x: to_expr(x) ** 2, a)
+    if name in ("sign", "ceil", "rint", "trunc", "conj", "conjugate", "angle", "arctan", "tan", "arcsin", "arccos", "sinh", "cosh", "tanh", "log2", "log1p", "cbrt", "reciprocal", "negative"):
+        fmap = {"sign": sp.sign, "ceil": sp.ceiling, "rint": lambda x: sp.floor(x + sp.Rational(1, 2)), "trunc": lambda x: sp.sign(x) * sp.floor(sp.Abs(x)),
+                "conj": sp.conjugate, "conjugate": sp.conjugate, "angle": sp.arg, "arctan": sp.atan, "tan": sp.tan, "arcsin": sp.asin, "arccos": sp.acos,
+                "sinh": sp.sinh, "cosh": sp.cosh, "tanh": sp.tanh, "log2": lambda x: sp.log(x, 2), "log1p": lambda x: sp.log(1 + x),
+                "cbrt": lambda x: sp.cbrt(x), "reciprocal": lambda x: 1 / x, "negative": lambda x: -x}[name]
+        return lambda a, *r, **k: ew(lambda x: fmap(to_expr(x)), a)
+    if name in ("round", "around", "round_"):
+        def npround(a, decimals=0, **k):
+            dgt = concrete_int(decimals)
+
+            def one(x):
+                e = to_expr(x)
+                if e.is_number and e.is_real:
+                    return to_expr(round(float(e), dgt)) if dgt else sp.Integer(round(float(e)))
+                return sp.Function("round")(e, sp.Integer(dgt))
+            return ew(one, a)
+        return npround
+    if name == "nan_to_num":
+        def nan_to_num(a, nan=0.0, **k):
+            return ew(lambda x: to_expr(nan) if to_expr(x) is sp.nan else x, a)
+        return nan_to_num
+    if name in ("float64", "float32", "float_", "double", "longdouble"):
+        return lambda x=0: to_expr(x)
+    if name in ("int64", "int32", "int_", "intp"):
+        return lambda x=0: _as_dtype(I, to_expr(x), "int", False)
+    if name in ("complex128", "complex64", "complex_"):
+        return lambda x=0, y=0: to_expr(x) + sp.I * to_expr(y)
+    if name in ("atleast_1d",):
+        return lambda x: _tovec(x) if isinstance(_tovec(x), Vec) else Vec([x])
+    if name in ("tile", "repeat"):
+        def rep(a, n, **k):
+            xs, m = flat(a), concrete_int(n)
+            return Vec(xs * m) if name == "tile" else Vec(x for x in xs for _ in range(m))
+        return rep
+    if name == "copy":
+        return lambda a, **k: _as_dtype(I, _tovec(a), None, True)
+    if name in ("size",):
+        return lambda a, *r: sp.Integer(len(flat(a)))
+    if name == "ndim":
+        return lambda a: sp.Integer(len(_vshape(_tovec(a))) if isinstance(_tovec(a), Vec) else 0)
+    if name in ("multiply", "add", "subtract", "divide", "true_divide"):
+        opn = {"multiply": ast.Mult, "add": ast.Add, "subtract": ast.Sub, "divide": ast.Div, "true_divide": ast.Div}[name]
+
+        def ufunc(a, b, out=None, **k):
+            r = binop(I, opn(), _tovec(a), _tovec(b))
+            if out is not None:
+                if isinstance(out, Vec) and isinstance(r, Vec) and len(out) == len(r):
+                    out.items[:] = r.items
+                    return out
+                raise AnalysisError("numpy ufunc with out= of another shape")
+            return r
+        return ufunc
     return None
